@@ -115,9 +115,9 @@ Definition factorial_val (release : bool) (n : num) : outcome value :=
 
 (* keyword lists, as written in the two assignment paths *)
 Definition assign_keywords : list string :=
-  ["constants"; "if"; "then"; "else"; "true"; "false"; "null"; "inputs"; "and"; "or"].
+  ["constants"; "infinity"; "inf"; "if"; "then"; "else"; "true"; "false"; "null"; "inputs"; "and"; "or"].
 Definition do_assign_keywords : list string :=
-  ["return"; "if"; "then"; "else"; "do"; "true"; "false"; "null"; "output"].
+  ["return"; "if"; "then"; "else"; "do"; "true"; "false"; "null"; "output"; "infinity"; "inf"].
 
 (* FunctionDef::check_arity *)
 Definition check_arity (f : value) (n : nat) : bool := accepts f n.
